@@ -122,7 +122,7 @@ class Ctx:
             self.transitions += gen
         return res
 
-    def validate_batch(self, trace_path, summary, atomic=True, exact=True, timeout=600):
+    def validate_batch(self, trace_path, summary, atomic=True, exact=True, timeout=600, max_rejections=4):
         """Validates a batch file of traces against AbsTxn, continuing past rejected traces.
         Returns (accepted_count, rejections) with rejections = list of dict(index, line, event)."""
         offsets = summary["offsets"]
@@ -185,6 +185,8 @@ class Ctx:
             rejections.append(dict(index=i, line=hw, event=ev, rel=hw - offsets[i]))
             accepted += i - start
             start = i + 1
+            if len(rejections) >= max_rejections:
+                break          # enough to report; the rest of this batch stays unexamined
             if start >= n:
                 break
             base_line = offsets[start] - 1
